@@ -1,10 +1,9 @@
-\* all histories of exactly MaxOps API calls (history is part of the state); one BEH line per history
-SPECIFICATION Spec
+SPECIFICATION TraceSpec
 CONSTANTS
   N = 3
   NVals = 2
   Ops = {"New", "ParseAbsent", "ParsePresent", "DeepCopy", "MkCopy", "UpdateFrom", "MutateNested", "Drop"}
-  MaxOps = 4
+  MaxOps = 0
   ShareAbsent = FALSE
   ShallowCopy = FALSE
-CONSTRAINT EmitLeaf
+POSTCONDITION AllConsumed
